@@ -382,9 +382,11 @@ Qed.
 Lemma entry_of en : In en tr -> entry_ok None (top_sender op) (flat_op op) (calls tr) en.
 Proof. intros H. pose proof (top_entries e op s) as A. unfold all_ok in A. rewrite Forall_forall in A. exact (A en H). Qed.
 
-Lemma p_c03_model : p_c03 (model_step ce st s) = None.
+Lemma p_c03_model_with :
+  negb (nomig_op op) || forallb (fun ds => due_ok (ce_codes ce) tr (fst ds) (snd ds)) (dsubs_op op) = true ->
+  p_c03 ce (model_step ce st s) = None.
 Proof.
-  rewrite model_step_eq. unfold p_c03. apply first_fail_all_true.
+  intros H9. rewrite model_step_eq. unfold p_c03. apply first_fail_all_true.
   cbn [st_op st_trace forallb snd].
   repeat (apply andb_true_iff; split); try reflexivity.
   - apply nodup_NoDup, Hnc.
@@ -406,6 +408,7 @@ Proof.
   - (* 8 *) apply forallb_forall. intros [a b] Hi. cbn [fst snd].
     destruct (memN a (call_nodes tr)) eqn:Ea; [|reflexivity]. destruct (memN b (call_nodes tr)) eqn:Eb; [|reflexivity].
     apply memN_in in Ea. apply memN_in in Eb. exfalso. exact (top_once e op s Hn a b Hi (conj Ea Eb)).
+  - exact H9.
 Qed.
 
 (* ---------- C05, clauses 5 and 6 ---------- *)
